@@ -383,6 +383,10 @@ control("C19", "a quantity built with an explicit category is also stored under 
         [(Q, "        quantities_cache[key] = quantity = Quantity(category, unit, unknown_unit_caption)\n        return quantity\n\n\nclass ReadOnlyError", "        quantities_cache[key] = quantity = Quantity(category, unit, unknown_unit_caption)\n        quantities_cache[(None, unit, unknown_unit_caption)] = quantity\n        return quantity\n\n\nclass ReadOnlyError")], "C19.R4")
 control("C16", "only the first occurrence of a legacy token is replaced",
         [(UD, "            fixed_unit = fixed_unit.replace(legacy, current)", "            fixed_unit = fixed_unit.replace(legacy, current, 1)")], "C16.R3")
+control("C05", "derived quantities validate each unit string only once",
+        [(Q, "                    unit_database.CheckQuantityTypeUnit(category_info.quantity_type, unit)\n\n        return ObtainQuantity(", "                    if unit != category_info.default_unit:\n                        unit_database.CheckQuantityTypeUnit(category_info.quantity_type, unit)\n\n        return ObtainQuantity(")], "C05.R8")
+control("C17", "template validation skips systems registered before a template existed",
+        [(USM, "        for unit_system in list(self._unit_systems.values()):\n            current_units_mapping = unit_system.GetUnitsMapping()", "        for unit_system in list(self._unit_systems.values())[1:]:\n            current_units_mapping = unit_system.GetUnitsMapping()")], "C17.R2")
 # ------------------------------------------------------------------------------------------ running
 def _apply(edits):
     overlay = {}
